@@ -408,6 +408,7 @@ pub fn exec_case(case: &Case, opt: &ExecOpt) -> Outcome {
         _ => 0,
     };
     let mut buf = vec![0xA5u8; buf_len];
+    let mut borrowed = dut::Borrowed::new(&wr);
     let mut clk = SimClock { w: wr.clone(), all_methods: cfg.clock_all_methods };
     let space = cfg.model.colour_space();
     let fault_free = case.faults.is_empty();
@@ -418,11 +419,13 @@ pub fn exec_case(case: &Case, opt: &ExecOpt) -> Outcome {
     let init_res = {
         let wr2 = wr.clone();
         let bufref: &mut [u8] = &mut buf;
+        let brref = &mut borrowed;
         let clkref = &mut clk;
         guarded(move || {
             let b = bufref;
             let c = clkref;
-            dut::build(cfg, &wr2, b, c)
+            let r = brref;
+            dut::build(cfg, &wr2, b, r, c)
         })
     };
     {
@@ -637,7 +640,7 @@ pub fn exec_case(case: &Case, opt: &ExecOpt) -> Outcome {
 
     // madctl / offset probes
     {
-        let m = madctl_ref(cfg.bgr, cfg.orient, cfg.refresh);
+        let m = madctl_ref(cfg.madctl_bits().0, cfg.orient, cfg.madctl_bits().1);
         stats.probes[(m >> 5) as usize] += 1;
         if (cfg.ox > 0 || cfg.oy > 0) && m & 0x40 != 0 {
             stats.probes[probe("offset_under_mx")] += 1;
@@ -853,7 +856,9 @@ pub fn exec_case(case: &Case, opt: &ExecOpt) -> Outcome {
                     if orc.picture {
                         let w = wr.borrow();
                         let c = w.ctrl.as_ref().unwrap();
-                        if c.mem.is_dense() {
+                        if c.mem.is_dense() && !matches!(op, Op::TestImage) {
+                            // (the reference has no model of the test image's pixels: a failed
+                            // TestImage is judged on the error contract only, then resynchronised)
                             // every value the op writes to a cell, in order: after a failure a cell the
                             // call may touch holds its old value or one of those - never garbage
                             let old = rm.exp.clone();
@@ -1012,7 +1017,7 @@ pub fn exec_case(case: &Case, opt: &ExecOpt) -> Outcome {
                 out.violation = Some(viol(case, "orientation-mismatch", name, i as i64, format!("orientation() = {:?}, last set {:?}", dut.orientation(), rm.orient)));
                 break;
             }
-            let want = madctl_ref(cfg.bgr, rm.orient, cfg.refresh);
+            let want = madctl_ref(cfg.madctl_bits().0, rm.orient, cfg.madctl_bits().1);
             if c.madctl != want {
                 out.violation = Some(viol(case, "madctl-mismatch", name, i as i64, format!("controller holds MADCTL {:#010b}, expected {:#010b}", c.madctl, want)));
                 break;
@@ -1250,7 +1255,7 @@ fn init_state_oracle_cfg(case: &Case, cfg: &Config, w: &World, c: &Controller, e
     if !c.display_on {
         return v("display-off-after-init", "controller display is off when init returns".into());
     }
-    let want = madctl_ref(cfg.bgr, cfg.orient, cfg.refresh);
+    let want = madctl_ref(cfg.madctl_bits().0, cfg.orient, cfg.madctl_bits().1);
     if c.madctl != want {
         return v("madctl-mismatch", format!("controller holds MADCTL {:#010b}, options encode to {:#010b}", c.madctl, want));
     }
